@@ -108,13 +108,16 @@ def uiOp (j : Json) : Except String Res := do
       -- HELD <starter> <during>…: when the starter's load was in flight while the remaining
       -- tokens arrived, the keymap says they do nothing (Update returns at once in loading
       -- mode); otherwise they were typed one by one as usual
-      if "HELD\x1f".toList.isPrefixOf k then
+      if "HELD\x1f".toList.isPrefixOf k ∨ "HELDS\x1f".toList.isPrefixOf k then
         let parts := ((String.ofList k).splitOn "\x1f").drop 1
         let inflight := heldLeft.headD false
         heldLeft := heldLeft.drop 1
         let toks := if inflight then parts.take 1 else parts
         for t in toks do
           if "RESIZE ".isPrefixOf t then continue
+          if t == "HOOKDONE" then
+            s := Ui.hookDone s
+            continue
           for b in tokenBytes t.toList do
             if panicked then break
             match Ui.opens w s b with
